@@ -43,6 +43,17 @@ func c10Wire(kind int, hbh uint32) []byte {
 	case pCERok, pCERretx:
 		return peer.StdCER(hbh, hbh, 4)
 	case pCERbad:
+		// the ways a CER can be unacceptable rotate with the identifier
+		switch hbh % 5 {
+		case 1: // the application only inside a Vendor-Specific-Application-Id, Vendor-Id first, unsupported
+			return peer.CERWith(hbh, hbh, peer.Group(peer.VSApp, peer.U32(peer.VendorID, 10415), peer.U32(peer.AuthApp, 99999)))
+		case 2: // a Vendor-Specific-Application-Id without any application id
+			return peer.CERWith(hbh, hbh, peer.Group(peer.VSApp, peer.U32(peer.VendorID, 10415)))
+		case 3: // no application at all
+			return peer.CERWith(hbh, hbh)
+		case 4: // a supported application, but in-band security required
+			return peer.CERWith(hbh, hbh, peer.U32(peer.AuthApp, 4), peer.U32(peer.InbandSec, 1))
+		}
 		return peer.StdCER(hbh, hbh, 999)
 	case pDWR:
 		return peer.DWR(hbh, hbh)
